@@ -106,6 +106,18 @@ def element_values(seed: int, version: int, prob: int, gidx: int, slot: int, Ne:
     X = rng.uniform(-1.0, 1.0, shape)
     if cplx:
         X = X + 1j * rng.uniform(-1.0, 1.0, shape)
+    # same values in different memory layouts (a caller's einsum / slicing decides the strides, not the values):
+    # C order, the block-transposed layout einsum("...ji,...jk->...ik") style operators return, Fortran order,
+    # a strided view into a larger buffer
+    layout = (int(seed) + 3 * int(gidx) + int(slot) + int(version)) % 4
+    if layout == 1 and X.ndim == 3:
+        X = np.ascontiguousarray(X.transpose(0, 2, 1)).transpose(0, 2, 1)
+    elif layout == 2:
+        X = np.asfortranarray(X)
+    elif layout == 3:
+        big = np.zeros(tuple(2 * k for k in X.shape), dtype=X.dtype)
+        big[tuple(slice(None, None, 2) for _ in X.shape)] = X
+        X = big[tuple(slice(None, None, 2) for _ in X.shape)]
     return X
 
 
